@@ -19,20 +19,23 @@ def mk(kind, name, variant=0):
     import sysloss.components as C
 
     k = 1.0 + 0.25 * variant
+    # variant 0 of the loads and of the converter carries a limit that every powered instance of this catalogue exceeds (a 'vi' / 'io'
+    # warning), the other variants have the default limits: the Warnings cells then tell whose limits an analysis really used
+    lim = {"limits": {"vi": [0.0, 1.0]}} if variant == 0 else {}
     if kind == "Source":
         return C.Source(name, vo=5.0 * k, rs=0.05 * k)
     if kind == "PLoad":
-        return C.PLoad(name, pwr=0.2 * k, pwrs=0.01)
+        return C.PLoad(name, pwr=0.2 * k, pwrs=0.01, **lim)
     if kind == "ILoad":
-        return C.ILoad(name, ii=0.05 * k, iis=0.001)
+        return C.ILoad(name, ii=0.05 * k, iis=0.001, **lim)
     if kind == "RLoad":
-        return C.RLoad(name, rs=120.0 * k)
+        return C.RLoad(name, rs=120.0 * k, **lim)
     if kind == "RLoss":
         return C.RLoss(name, rs=0.2 * k)
     if kind == "VLoss":
         return C.VLoss(name, vdrop=0.1 * k)
     if kind == "Converter":
-        return C.Converter(name, vo=3.3, eff=0.9 / k, iq=1e-3, iis=1e-5)
+        return C.Converter(name, vo=3.3, eff=0.9 / k, iq=1e-3, iis=1e-5, **({"limits": {"io": [0.0, 1e-3]}} if variant == 0 else {}))
     if kind == "LinReg":
         return C.LinReg(name, vo=2.5, vdrop=0.2, ig=1e-3 * k, iis=1e-5)
     if kind == "PSwitch":
@@ -335,14 +338,43 @@ BASES = {
                                   {"op": "add_comp", "parents": ["S1"], "kind": "LinReg", "name": "G"},
                                   {"op": "add_comp", "parents": ["C"], "kind": "PLoad", "name": "L"}, {"op": "analyse"},
                                   {"op": "del_comp", "target": "L"}, {"op": "add_comp", "parents": ["G"], "kind": "PLoad", "name": "L"}],
+    # analysis, then a whole subtree is deleted and another one is built on the freed node indices; the new components have other limits
+    "subtree-replaced-after-analysis": [{"op": "new", "name": "S1"}, {"op": "add_comp", "parents": ["S1"], "kind": "Converter", "name": "A"},
+                                        {"op": "add_comp", "parents": ["A"], "kind": "PLoad", "name": "L1"}, {"op": "add_comp", "parents": ["A"], "kind": "ILoad", "name": "L2"},
+                                        {"op": "analyse"}, {"op": "del_comp", "target": "A", "del_childs": True},
+                                        {"op": "add_comp", "parents": ["S1"], "kind": "Converter", "name": "B", "variant": 1},
+                                        {"op": "add_comp", "parents": ["B"], "kind": "PLoad", "name": "N1", "variant": 1},
+                                        {"op": "add_comp", "parents": ["B"], "kind": "PLoad", "name": "N2"}],
+    # analysis, then a component is replaced under its own name by one with other limits (same node index, same name -> index registry)
+    "replaced-after-analysis": [{"op": "new", "name": "S1"}, {"op": "add_comp", "parents": ["S1"], "kind": "Converter", "name": "C"},
+                                {"op": "add_comp", "parents": ["C"], "kind": "PLoad", "name": "L"}, {"op": "analyse"},
+                                {"op": "change_comp", "target": "L", "kind": "PLoad", "name": "L", "variant": 1},
+                                {"op": "change_comp", "target": "C", "kind": "Converter", "name": "C", "variant": 1}],
     "relinked-mux-input": [{"op": "new", "name": "S1"}, {"op": "add_source", "name": "S2"},
                            {"op": "add_comp", "parents": ["S1"], "kind": "RLoss", "name": "B"},
                            {"op": "add_comp", "parents": ["B", "S2"], "kind": "PMux", "name": "M"}, {"op": "add_comp", "parents": ["M"], "kind": "ILoad", "name": "L"},
                            {"op": "analyse"}, {"op": "del_comp", "target": "B", "del_childs": False}],
+    # a mux input declared by the RAIL name of its component; that component is then replaced under its own name WITHOUT the rail
+    "mux-rail-input-rail-dropped": [{"op": "new", "name": "S1"}, {"op": "add_source", "name": "S2", "rail": "USB"},
+                                    {"op": "add_comp", "parents": ["USB", "S1"], "kind": "PMux", "name": "M", "rail": "SYS"},
+                                    {"op": "add_comp", "parents": ["M"], "kind": "PLoad", "name": "L"}, {"op": "add_comp", "parents": ["M"], "kind": "Converter", "name": "C"},
+                                    {"op": "change_comp", "target": "S2", "kind": "Source", "name": "S2", "variant": 1}],
+    # three inputs; input F hangs below S1, which is itself an input declared by its rail name; F is deleted without its children, so
+    # the mux is re-linked to S1 twice (once as "VBUS", once through the splice) - the two count once
+    "mux3-relinked-input-by-rail": [{"op": "new", "name": "S1", "rail": "VBUS"}, {"op": "add_source", "name": "S2"},
+                                    {"op": "add_comp", "parents": ["S1"], "kind": "RLoss", "name": "F"},
+                                    {"op": "add_comp", "parents": ["VBUS", "F", "S2"], "kind": "PMux", "name": "M"},
+                                    {"op": "add_comp", "parents": ["M"], "kind": "PLoad", "name": "L"},
+                                    {"op": "del_comp", "target": "F", "del_childs": False}],
     "mux-renamed-input": [{"op": "new", "name": "S1"}, {"op": "add_source", "name": "S2"},
                           {"op": "add_comp", "parents": ["S1", "S2"], "kind": "PMux", "name": "M"}, {"op": "add_comp", "parents": ["M"], "kind": "PLoad", "name": "L"},
                           {"op": "change_comp", "target": "S2", "kind": "Source", "name": "S2b", "variant": 1}],
 }
+
+
+# bases that exist for what the ANALYSES may keep between calls (C16); the structural checks (C14, C15) gain nothing from them
+C16_ONLY = ("subtree-replaced-after-analysis", "replaced-after-analysis")
+EDIT_BASES = [b for b in BASES if b not in C16_ONLY]
 
 
 # ---------------------------------------------------------------------------------------------------
